@@ -689,3 +689,168 @@ def w7(ctx):
 def h5(ctx):
     from .c10 import x4
     return x4(ctx)
+
+
+@rule("C01", "W8", floor=5, kind="S",
+      desc="a collection exists only because a request created it: MKCOL / MKCALENDAR answer 409 for a missing parent "
+           "from the FileNotFoundError of the store's create(), so every back end creates exactly one directory level "
+           "(os.mkdir); a recursive creation answers 201 and leaves intermediate collections nobody asked for")
+def w8(ctx):
+    from .common import handler_catching
+    obs = []
+    for q in ("xandikos.webdav.MkcolMethod.handle", "xandikos.caldav.MkcalendarMethod.handle"):
+        fi = ctx.func(q)
+        cfg = ctx.cfg(fi)
+        sites = [n for n in cfg.stmt_nodes() for c in n.calls() if isinstance(c.func, ast.Attribute) and c.func.attr == "create_collection"]
+        if not sites:
+            raise AnalysisError("%s: create_collection call not found" % q)
+        for n in sites:
+            h = handler_catching(cfg, n, "FileNotFoundError")
+            obs.append(ctx.ob(h is not None, q, "%s:%d" % (fi.module.rel, n.lineno), "missing parent is answered by the handler of FileNotFoundError",
+                              "create_collection(...) sits in try/except FileNotFoundError",
+                              "%s no longer handles the FileNotFoundError of create_collection: a missing parent is a 500" % fi.short))
+    for cq in ("xandikos.store.git.TreeGitStore", "xandikos.store.git.BareGitStore", "xandikos.store.vdir.VdirStore"):
+        f = ctx.own_method(cq, "create")
+        cfg = ctx.cfg(f)
+        single, deep = [], []
+        for n in cfg.stmt_nodes():
+            for c in n.calls():
+                d = dotted(c.func) or ""
+                if d == "os.mkdir":
+                    single.append(n)
+                elif d == "os.makedirs":
+                    deep.append(n)
+                elif isinstance(c.func, ast.Attribute) and c.func.attr == "mkdir" and d != "os.mkdir":
+                    par = [k for k in c.keywords if k.arg == "parents"]
+                    if par and not (isinstance(par[0].value, ast.Constant) and par[0].value.value is False):
+                        deep.append(n)
+                    else:
+                        single.append(n)
+        if not single and not deep:
+            raise AnalysisError("%s.create: directory creation not found" % cq)
+        obs.append(ctx.ob(not deep, f.qualname, f.where, "create() makes one directory level",
+                          "os.mkdir(path): FileNotFoundError for a missing parent",
+                          "%s.create creates missing parent directories too (`%s`): MKCOL / MKCALENDAR below a collection that does not exist "
+                          "answer 201 instead of 409, and the intermediate directories show up as collections that no request created"
+                          % (cq.split(".")[-1], src(deep[0].ast)[:60] if deep else "")))
+    return obs
+
+
+@rule("C01", "W9", floor=2, kind="S",
+      desc="a POSTed member is acknowledged under the URL it is listed under: the Location header joins the name "
+           "create_member() returned onto the client-visible href of the collection (element 0 of "
+           "_get_resource_from_environ), not onto the backend path (element 1), which lacks the mount prefix")
+def w9(ctx):
+    from .common import string_leaves, unwrap_await
+    fi = ctx.func("xandikos.webdav.PostMethod.handle")
+    cfg = ctx.cfg(fi)
+    du = DefUse(cfg)
+    obs = []
+    found = 0
+    for n in cfg.stmt_nodes():
+        for e in n.exprs():
+            for x in ast.walk(e):
+                vals = []
+                if isinstance(x, ast.Dict):
+                    vals = [v for k, v in zip(x.keys, x.values) if isinstance(k, ast.Constant) and k.value == "Location"]
+                elif isinstance(x, ast.Tuple) and len(x.elts) == 2 and isinstance(x.elts[0], ast.Constant) and x.elts[0].value == "Location":
+                    vals = [x.elts[1]]
+                for v in vals:
+                    found += 1
+                    leaves = string_leaves(du, n, v)
+
+                    def is_call(o, attr, path):
+                        l = unwrap_await(o.leaf) if o.leaf is not None else None
+                        return o.kind == "expr" and isinstance(l, ast.Call) and isinstance(l.func, ast.Attribute) and l.func.attr == attr \
+                            and tuple(o.path) == path
+                    href = any(is_call(o, "_get_resource_from_environ", (0,)) for o in leaves)
+                    path = any(is_call(o, "_get_resource_from_environ", (1,)) for o in leaves)
+                    name = any(is_call(o, "create_member", (0,)) for o in leaves)
+                    obs.append(ctx.ob(href and not path, fi.qualname, "%s:%d" % (fi.module.rel, n.lineno), "Location is based on the collection href",
+                                      "Location <- href of _get_resource_from_environ()",
+                                      "the Location of a POSTed member is built from %s: under a mount prefix (SCRIPT_NAME / --route-prefix) "
+                                      "it names a URL that the listing does not contain and GET answers with 404"
+                                      % ("the backend path (element 1 of _get_resource_from_environ)" if path else "something other than the collection href")))
+                    obs.append(ctx.ob(name, fi.qualname, "%s:%d" % (fi.module.rel, n.lineno), "Location names the created member",
+                                      "Location <- create_member()[0]",
+                                      "the Location of a POSTed member does not contain the name create_member() returned"))
+    if not found:
+        raise AnalysisError("PostMethod.handle: Location header not found")
+    return obs
+
+
+ENTRY_LISTERS = LISTERS + [("xandikos.store.git.GitStore", "iter_with_etag")]
+
+
+def _plain(e) -> bool:
+    """A constant, a (module) name or attribute, or a display of those: not something computed from the entry."""
+    if isinstance(e, (ast.Constant, ast.Name)) or (isinstance(e, ast.Attribute) and dotted(e) is not None):
+        return True
+    if isinstance(e, (ast.Tuple, ast.List, ast.Set)):
+        return all(_plain(x) for x in e.elts)
+    return False
+
+
+def skip_obligations(ctx):
+    """A lister leaves out an entry only by a test on its name (`name == CONST`, `name.endswith(CONST)`): those are
+    the tests the writers can - and, by H3, must - refuse.  A decision to skip taken on anything else (the guessed
+    content type, the mode, the size) hides members that the by-name paths (lookup, import, delete, If-None-Match)
+    still see, so the existing resource looks absent to a conditional request and is overwritten."""
+    from .common import loop_body_nodes
+    obs = []
+    for cq, nm in ENTRY_LISTERS:
+        fi = ctx.home_method(cq, nm)
+        cfg = ctx.cfg(fi)
+        ys = _yield_nodes(cfg)
+        if not ys:
+            raise AnalysisError("%s.%s yields nothing" % (cq, nm))
+        heads = [n for n in cfg.nodes if n.kind == "for" and any(y.id in loop_body_nodes(cfg, n) for y in ys)]
+        n_skip = 0
+        for head in heads:
+            body = loop_body_nodes(cfg, head)
+            inner_y = [y for y in ys if y.id in body]
+            for t in cfg.nodes:
+                if t.kind != "test" or t.id not in body:
+                    continue
+                for m, lab in t.succ:
+                    if lab not in ("t", "f"):
+                        continue
+                    r = cfg.reachable([m], block_nodes=[head], follow_exc=False)
+                    if any(y.id in r for y in inner_y):
+                        continue      # this side can still list the entry
+                    # does the other side list it?  (otherwise the test is not the one that decides)
+                    others = [mm for mm, ll in t.succ if ll in ("t", "f") and ll != lab]
+                    ro = cfg.reachable(others, block_nodes=[head], follow_exc=False)
+                    if not any(y.id in ro for y in inner_y):
+                        continue
+                    # leaves the iteration by raising?  then it is a refusal, not a skip
+                    back = any(mm is head for x in cfg.nodes if x.id in r for mm, _l in x.succ) or m is head
+                    if not back:
+                        continue
+                    n_skip += 1
+                    e = t.ast
+                    if isinstance(e, ast.UnaryOp) and isinstance(e.op, ast.Not):
+                        e = e.operand
+                    by_name = False
+                    if isinstance(e, ast.Compare) and len(e.ops) == 1 and isinstance(e.ops[0], (ast.Eq, ast.NotEq, ast.In, ast.NotIn)):
+                        sides = [e.left, e.comparators[0]]
+                        by_name = any(isinstance(a, ast.Name) and _plain(b) for a, b in (sides, sides[::-1]))
+                    elif isinstance(e, ast.Call) and isinstance(e.func, ast.Attribute) and e.func.attr in ("endswith", "startswith") and e.args \
+                            and isinstance(e.func.value, ast.Name) and _plain(e.args[0]):
+                        by_name = True
+                    obs.append(ctx.ob(by_name, fi.qualname, "%s:%d" % (fi.module.rel, t.lineno), "entry skipped by a test on its name: %s" % src(t.ast)[:50],
+                                      "`%s` compares the name with a constant" % src(t.ast)[:50],
+                                      "%s leaves out the entries for which `%s` is %s - not a test on the name that the writers refuse: such a "
+                                      "member is still found by name (import_one, _get_etag, delete_one), but get_member()/the listing no longer "
+                                      "show it, so `PUT If-None-Match: *` overwrites it and GET answers 404"
+                                      % (fi.short, src(t.ast)[:60], "true" if lab == "t" else "false")))
+        if n_skip == 0:
+            obs.append(ctx.ok(fi.qualname, fi.where, "no entry is skipped", "every iteration of the listing loop reaches the yield"))
+    return obs
+
+
+@rule("C01", "H6", floor=4, kind="S",
+      desc="listing and lookup agree on what exists: a lister skips an entry only by a test of its name against a "
+           "constant (which H3 obliges the writers to refuse); no entry is left out for its guessed type, mode or size")
+def h6(ctx):
+    return skip_obligations(ctx)
